@@ -291,11 +291,18 @@ CLAIMS.update({
              "context inside that statement (C19_messages_point_into_statement); a sub-statement found invalid at any depth is "
              "reported with a context inside that sub-statement (C19_fault_located, with the descent lemma); task messages "
              "point into the task; a missing productionTask is reported at line 1; every message of every program has a "
-             "position (C19_every_message_has_a_position - refuted before the repair of D21). The position -> line arithmetic "
-             "of the printer and the equality of the console and editor-extension formats are NOT proved: they are checked by "
-             "correspondence (fault x position x layout variants that shift lines x both formats; lines compared with the model "
-             "through the printer's line map).",
-        technique="Coq proof (context-locality invariant over the checker and the visitor, descent lemma) + fault injection "
+             "position (C19_every_message_has_a_position - refuted before the repair of D21). IN LINE NUMBERS (Front/LinesOf.v, "
+             "Properties/C19lines.v), for every layout of the printed text (blank and comment lines, indentation widths, CRLF, "
+             "struct literals over several lines): the line reported for a context lies within the first and last physical line "
+             "of the statement that contains it (C19_ctx_inside_stmt_line, C19_lines_point_into_statement_of, "
+             "C19_fault_located_lines_every_layout), every reported line is between 1 and the number of lines of the file "
+             "(C19_every_message_line_every_layout), file-level messages are line 1, and the line agrees with the character "
+             "level (C19_ctx_line_chars: exactly n-1 line feeds precede it in the printed characters). Still by correspondence: "
+             "which ANTLR context object each print_error call site passes (model context <-> parser context), and that the "
+             "console and editor-extension formats print the same line (fault x position x layout variants x both formats; "
+             "lines evaluated in coqc and compared with parse_string).",
+        technique="Coq proof (context-locality invariant over the checker and the visitor, descent lemma; line spans of the "
+                  "rendered text for every layout) + fault injection "
                   "under layout variants with differential correspondence in both output formats",
         design_ref="DESIGN.md §9 C19, docs/check_component.md", note=CHECK_NOTE),
 })
